@@ -64,6 +64,9 @@ def cases(tier, seed):
             out.append({"kind": "rank", "cls": f"rank:{'zero' if r == 0 else 'full' if r == min(m_, n_) else 'deficient'}",
                         "m": m_, "n": n_, "r": r, "idx": idx, "seed": seed})
             idx += 1
+    for k in range(12 if tier == "quick" else 80):
+        out.append({"kind": "history", "cls": "history", "idx": idx, "seed": seed})
+        idx += 1
     for k in range(40 if tier == "quick" else 400):
         out.append({"kind": "intrank", "cls": "rank:integer_exact", "idx": idx, "seed": seed, "maxd": maxd})
         idx += 1
@@ -77,7 +80,20 @@ def cases(tier, seed):
 
 
 def run_case(spec, ctx, R):
-    {"rank": _rank, "intrank": _intrank, "det": _det, "moore": _moore}[spec["kind"]](spec, ctx, R)
+    {"rank": _rank, "intrank": _intrank, "det": _det, "moore": _moore, "history": _history}[spec["kind"]](spec, ctx, R)
+
+
+def _history(spec, ctx, R):
+    """One buffer, many calls: the caller's own object, the same object updated in place, views that keep its address."""
+    rng = gen.rng_for(spec["seed"], "c11hist", spec["idx"])
+    m, n = [(4, 4), (5, 3), (3, 5), (6, 6), (2, 2), (6, 4)][spec["idx"] % 6]
+    A = refq.randq(rng, m, n)
+    ctx.distinct("history", A)
+    for lab, X in gen.history_forms(A):
+        r = min(X.shape)
+        judge_rank(ctx, R, X, r, "history:" + lab, ["history"])
+        judge_null(ctx, R, X, r, "history:" + lab, ["history"])
+    ctx.hit("history:one_buffer_many_calls")
 
 
 def _threshold_ambiguous(s, m, n):
